@@ -1,5 +1,109 @@
-"""thorough-tier self-test corpus (filled in later)"""
+"""Thorough-tier self-test: seeded faults (each must be reported by the named rule) and
+behaviour-preserving controls (each must leave the verdict `held`) applied to scratch copies
+of the *current* tree.  A variant whose anchor text no longer exists is skipped.  The result
+is recorded in the evidence (`selftest`); a surviving fault or an alarmed control prints a
+`SELFTEST-WARN` line and does not change the exit code: on an edited tree the corpus is a
+statement about the checker, not about the property."""
+from __future__ import annotations
+
+import json
+import multiprocessing
+import os
+import shutil
+import tempfile
+from typing import Any, Dict, List, Optional, Tuple
+
+from .corpus import CORPUS
+
+COPY = ('gym_gridverse', 'yaml', 'examples', 'scripts')
 
 
-def run(pid: str, repo: str) -> None:
-    return None
+def _make_variant(repo: str, edits: List[Tuple[str, str, str]]) -> Optional[str]:
+    """copy the analysed part of the tree and apply textual edits; None if an anchor is gone"""
+    for rel, old, new in edits:
+        p = os.path.join(repo, rel)
+        if not os.path.exists(p) or open(p, encoding='utf-8').read().count(old) != 1:
+            return None
+    d = tempfile.mkdtemp(prefix='gvselftest-')
+    for sub in COPY:
+        shutil.copytree(os.path.join(repo, sub), os.path.join(d, sub),
+                        ignore=shutil.ignore_patterns('__pycache__', '*.pyc'))
+    shutil.copy(os.path.join(repo, 'setup.py'), d)
+    for rel, old, new in edits:
+        p = os.path.join(d, rel)
+        s = open(p, encoding='utf-8').read()
+        open(p, 'w', encoding='utf-8').write(s.replace(old, new))
+    return d
+
+
+def _run_variant(args) -> Dict[str, Any]:
+    repo, v = args
+    from .main import analyse
+    import ast
+    d = _make_variant(repo, v['edits'])
+    if d is None:
+        return {'name': v['name'], 'status': 'skipped (anchor text not found)'}
+    try:
+        for rel, _, _ in v['edits']:
+            if rel.endswith('.py'):
+                try:
+                    ast.parse(open(os.path.join(d, rel)).read())
+                except SyntaxError as e:
+                    return {'name': v['name'], 'status': f'skipped (variant does not parse: {e})'}
+        out = {'name': v['name'], 'kind': v['kind'], 'results': {}}
+        ok = True
+        for pid in v['props']:
+            code, rep, msg = analyse(pid, d)
+            rules = sorted({f.rule for f in rep.findings})
+            out['results'][pid] = {'exit': code, 'rules': rules, 'msg': msg[:120]}
+            if v['kind'] == 'fault':
+                want = v.get('rules')
+                hit = code == 1 and (not want or any(r in rules for r in want))
+                ok = ok and hit
+            else:
+                ok = ok and code == 0
+        out['status'] = 'ok' if ok else ('MISSED' if v['kind'] == 'fault' else 'FALSE-ALARM')
+        return out
+    finally:
+        shutil.rmtree(d, ignore_errors=True)
+
+
+def run(pid: str, repo: str, report=None, jobs: int = 16) -> Dict[str, Any]:
+    variants = [v for v in CORPUS if pid in v['props']]
+    # a variant is checked only against the property being run
+    work = [(repo, dict(v, props=[pid])) for v in variants]
+    if not work:
+        return {}
+    with multiprocessing.Pool(min(jobs, len(work))) as pool:
+        results = pool.map(_run_variant, work)
+    faults = [r for r in results if r.get('kind') == 'fault']
+    controls = [r for r in results if r.get('kind') == 'control']
+    summary = {
+        'variants': len(results),
+        'skipped': [r['name'] for r in results if r['status'].startswith('skipped')],
+        'faults': len(faults),
+        'faults_detected': sum(1 for r in faults if r['status'] == 'ok'),
+        'faults_missed': [r['name'] for r in faults if r['status'] != 'ok'],
+        'controls': len(controls),
+        'controls_silent': sum(1 for r in controls if r['status'] == 'ok'),
+        'controls_alarmed': [r['name'] for r in controls if r['status'] != 'ok'],
+        'details': results,
+    }
+    for n in summary['faults_missed']:
+        print(f'SELFTEST-WARN property={pid} seeded fault not reported: {n}')
+    for n in summary['controls_alarmed']:
+        print(f'SELFTEST-WARN property={pid} behaviour-preserving control raised an alarm: {n}')
+    print(f'selftest {pid}: {summary["faults_detected"]}/{summary["faults"]} faults detected, '
+          f'{summary["controls_silent"]}/{summary["controls"]} controls silent, '
+          f'{len(summary["skipped"])} skipped')
+    if report is not None:
+        report.extra_coverage['selftest'] = summary
+    return summary
+
+
+if __name__ == '__main__':
+    import sys
+    repo = os.environ.get('VERIF_REPO', '/repo')
+    pids = sys.argv[1:] or sorted({p for v in CORPUS for p in v['props']})
+    for pid in pids:
+        run(pid, repo)
